@@ -2,8 +2,16 @@
 
 use embedded_cli::buffer::Buffer;
 
-#[derive(Clone, Debug, PartialEq, Eq, Hash)]
+#[derive(Clone, Debug, PartialEq, Eq)]
 pub struct VBuf(pub Vec<u8>);
+
+/// Only the size takes part in hashes: the live part of a buffer is in the canonical key already and
+/// the dead part must stay out of it (`__verif_struct_hash` of Editor / History hashes every *field*).
+impl std::hash::Hash for VBuf {
+    fn hash<H: std::hash::Hasher>(&self, h: &mut H) {
+        self.0.len().hash(h);
+    }
+}
 
 impl VBuf {
     pub fn new(n: usize) -> Self {
